@@ -14,7 +14,7 @@ import (
 
 func init() {
 	Register("C05", "Decides structural necessary conditions of 'type references resolve exactly; UsedUserTypes() lists exactly the names used': (agree) every reference position the resolvers (checker, compiler, example builder, OpenAPI) read is also read by the collector behind UsedUserTypes(); (walk) the collector descends into every node kind that has children; (dedupe) a name is appended only when it is new; (miss) every failed lookup in a type table raises ErrUserTypeNotFound with the name (the one deviant site is the recursion checker, reported under C06). Does NOT decide the iff over all reference graphs nor that unused valid types never change a result.",
-		c05agree, c05walk, c05descend, c05record, c05dedupe, c05miss, c05rawkey, func(c *core.Ctx) { c07walkAs(c, "C05.allofwalk") })
+		c05agree, c05walk, c05descend, c05record, c05unnamed, c05dedupe, c05miss, c05rawkey, func(c *core.Ctx) { c07walkAs(c, "C05.allofwalk") })
 }
 
 // reference accessors: methods through which a type name stored in the model is read.
@@ -500,4 +500,36 @@ func c05record(c *core.Ctx) {
 		}
 		c.Check(bad == "", R, fn, c.P.Pos(d.Decl.Pos()), fn+" records every name it is given", "a name can be dropped: "+clip(bad, 160))
 	}
+}
+
+// c05unnamed: the collector also looks into the unnamed types of the schema.
+func c05unnamed(c *core.Ctx) {
+	const R = "C05.unnamed"
+	c.Rule(R, "JSchema.CollectUserTypes collects from the root node AND from the root node of every unnamed type of the schema (a loop over s.Inner.TypesList() that calls collectUserTypes): a rule-set item of an `or` rule that carries more than `type` is stored as an unnamed type, and the type names written inside it are part of the schema text. The names found there are sorted before they are added (unnamed types are keyed by an address-based name, so map order must not decide the order of the result)")
+	c.Floor(R, 1)
+	d := c.P.FindDecl("(*notations/jschema.JSchema).CollectUserTypes")
+	if d == nil {
+		c.Unresolved(R, "(*notations/jschema.JSchema).CollectUserTypes")
+		return
+	}
+	loop, sorted := false, false
+	ast.Inspect(d.Decl.Body, func(n ast.Node) bool {
+		switch x := n.(type) {
+		case *ast.RangeStmt:
+			if strings.HasSuffix(core.ExprStr(x.X), ".TypesList()") || core.ExprStr(x.X) == "unnamed" || core.ExprStr(x.X) == "types" {
+				ast.Inspect(x.Body, func(m ast.Node) bool {
+					if call, ok := m.(*ast.CallExpr); ok && core.ExprStr(call.Fun) == "collectUserTypes" {
+						loop = true
+					}
+					return true
+				})
+			}
+		case *ast.CallExpr:
+			if core.ExprStr(x.Fun) == "sort.Strings" {
+				sorted = true
+			}
+		}
+		return true
+	})
+	c.Check(loop && sorted, R, "CollectUserTypes:unnamed", c.P.Pos(d.Decl.Pos()), "CollectUserTypes walks the unnamed types and sorts what it finds there", core.F("type names used inside `or` rule-sets are missing from UsedUserTypes(), or come in map order (walks unnamed types: %v, sorted: %v)", loop, sorted))
 }
